@@ -29,6 +29,14 @@ for f in ("sign", "verify", "keypairgen", "keypairval", "pubkeyval", "pubkeycalc
     GROUPS.append(G("flow96.%s" % f, "harness/C16/flow96.c", "h_" + f, ENV96, defs=["L=96"], stubs=["stubs/bign_env.c"], strip=STRIP96,
                     level="B", bound="l = 96 (operand size fixed, contents symbolic); callees below the function replaced by their contracts",
                     unwind=70, native=False, timeout=900, fn=[FN96[f]]))
-ASSUMPTIONS = []
-TRUSTED = []
-NOT_COVERED = []
+ASSUMPTIONS = ["assumed contracts of the replaced callees (stubs/bign_env.c): bignStart lays out curve / field descriptions with order = params->q and modulus = params->p; "
+               "qrFrom / qrTo, ecMulA, ecAddMulA, ecpIsOnA return arbitrary values (success flags nondeterministic); zzRandNZMod ensures 0 < k < mod on success; "
+               "zzMod ensures r < mod; zzAddMod / zzSubMod require a, b < mod and ensure c < mod (their values are decided under C05); belt-hash is a transcript; "
+               "blobCreate may fail; oidFromDER returns an arbitrary length or SIZE_MAX",
+               "the state is one typed object of fixed capacity; its declared size is what the function requested, and each callee stack must fit below it (FITS); "
+               "accesses of the function's own local variables beyond the declared size but inside the capacity are not flagged here (C07 exactblob.testsuite covers them natively)",
+               "security level / operand size concrete per group; deterministic-signing model: at most three belt-wbl rounds"]
+TRUSTED = ["stubs/bign_env.c", "harness/ref.h"]
+NOT_COVERED = ["the algebra below the stubs: group law, field arithmetic, belt-hash, belt-wbl / KWP (C05, C01 and C06 territory)",
+               "bignSign2 / bignIdSign2 flow contract: written, no solver answer (attempted only); bignKeyWrap / bignKeyUnwrap / bignIdExtract / bignIdSign / bignIdVerify: native search only",
+               "g12s, dstu, pfok: native search only"]
